@@ -359,6 +359,75 @@ func scenarioD(kind string, callerDeadline bool) *explore.Scenario {
 	}
 }
 
+// scenarioDBatch: as D, for the batch calls: the only partition's group has no leader, the batch's proposal is never
+// applied. Every id of the batch must come back with an error (or the call itself must fail) - never as a success.
+func scenarioDBatch(kind string) *explore.Scenario {
+	return &explore.Scenario{
+		Name:      fmt.Sprintf("D-no-leader-batch-%s", kind),
+		Configure: func(s *vrt.Sched) { s.Horizon = 200000; s.DelayBounding = true },
+		Build: func(x *explore.Exec) func(vrt.EndReason) *explore.Violation {
+			fakes.Reset()
+			meta := world.DatasetMeta(1, pb.Space_Euclidean, [][]uint64{{1, 2}}, 2)
+			var node *world.RNode
+			x.S.Spawn("n1/setup", false, func() {
+				node = world.NewRNode(1, world.MemDB(), []uint64{1, 2}) // node 2 is never started: no quorum, no leader
+				if err := node.ApplyCreate(meta); err != nil {
+					panic(err)
+				}
+			})
+			x.Quiesce()
+			x.OnCleanup(func() { node.Close() })
+			for _, t := range x.S.Timers() {
+				t.Stop()
+			}
+			x.S.OfferTimers = true
+			ds := node.Dataset(meta)
+			items := []*pb.BatchItem{{Id: ids[0].Bytes(), Value: []float32{1}}, {Id: ids[1].Bytes(), Value: []float32{2}}}
+			var errs map[uuid.UUID]error
+			var err error
+			done := false
+			x.S.Spawn("n1/caller0", true, func() {
+				switch kind {
+				case "ins":
+					errs, err = ds.BatchInsert(context.Background(), items)
+				case "upd":
+					errs, err = ds.BatchUpdate(context.Background(), items)
+				case "rem":
+					errs, err = ds.BatchRemove(context.Background(), items)
+				}
+				done = true
+			})
+			return func(end vrt.EndReason) *explore.Violation {
+				if !done {
+					letTimePass(x)
+				}
+				pending := 0
+				for _, t := range x.S.Timers() {
+					if t.Kind == "deadline" && strings.Contains(t.Creator, "caller") && t.Fired == 0 && t.Armed() {
+						pending++
+					}
+				}
+				x.Outcome = fmt.Sprintf("done=%v err=%v errs=%d", done, err != nil, len(errs))
+				if !done {
+					if pending == 0 {
+						return &explore.Violation{Key: "caller-never-returns", Desc: "no leader: the batch did not return although none of its timers is pending: " + strings.Join(x.S.Blocked(), "; ")}
+					}
+					return nil
+				}
+				if err != nil {
+					return nil
+				}
+				for _, id := range ids[:2] {
+					if errs[id] == nil {
+						return &explore.Violation{Key: "batch-success-without-leader", Desc: fmt.Sprintf("the partition's group has no leader, nothing was applied, yet id %x of the batch is reported without an error (errors: %v)", id[:2], errs)}
+					}
+				}
+				return nil
+			}
+		},
+	}
+}
+
 func removedBy(results []*result, id int) bool {
 	for _, r := range results {
 		if r.c.Kind == "rem" && r.c.ID == id {
@@ -789,6 +858,10 @@ func main() {
 	as := []variantA{
 		{name: "one-insert", callers: [][]call{{I(0, 1)}}},
 		{name: "one-insert-timer", callers: [][]call{{I(0, 1)}}, timers: true},
+		// one caller after another: whatever the first call left behind (an outcome that arrived while it was timing out)
+		// must not reach the second
+		{name: "insert-twice-one-caller-timer", callers: [][]call{{I(0, 1), I(0, 2)}}, timers: true},
+		{name: "insert-then-remove-absent-one-caller-timer", callers: [][]call{{I(0, 1), R(1)}}, timers: true},
 		{name: "insert-same-id-twice", callers: [][]call{{I(0, 1)}, {I(0, 2)}}},
 		{name: "insert-vs-remove", pre: []call{I(0, 9)}, callers: [][]call{{R(0)}, {I(0, 2)}}},
 		{name: "update-vs-remove", pre: []call{I(0, 9)}, callers: [][]call{{U(0, 3)}, {R(0)}}, maxQ: 2},
@@ -807,6 +880,9 @@ func main() {
 		for _, dl := range []bool{false, true} {
 			scs = append(scs, scenarioD(kind, dl))
 		}
+	}
+	for _, kind := range []string{"ins", "upd", "rem"} {
+		scs = append(scs, scenarioDBatch(kind))
 	}
 	before := func(run *ev.Run) ev.Coverage {
 		evals, distinct := batches(run)
